@@ -46,6 +46,10 @@ def configs(tier):
     for sig in ('x_out', 'x_outopt', 'x_kwout'):
         for ret in ('none', 'out', 'new', 'wrongspace'):
             cfgs.append({'kind': 'returns', 'sig': sig, 'ret': ret})
+    for bad in BAD_SIGS:
+        cfgs.append({'kind': 'badsig', 'sig': bad})
+    for ret in ('castable-list', 'wrong-size', 'object'):
+        cfgs.append({'kind': 'oopret', 'ret': ret})
     cfgs.append({'kind': 'introspect'})
     return cfgs
 
@@ -233,6 +237,10 @@ def run(cfg):
         return _run_dispatch(cfg)
     if k == 'returns':
         return _run_returns(cfg)
+    if k == 'badsig':
+        return _run_badsig(cfg)
+    if k == 'oopret':
+        return _run_oopret(cfg)
     if k == 'introspect':
         return _run_introspect(cfg)
     raise KeyError(k)
@@ -468,6 +476,86 @@ def _run_dispatch(cfg):
              'symptom': s, 'detail': d} for s, d in first.items()]
     return {'evals': evals, 'viol': viol, 'sig': 'dispatch:%s:%s:%s' % (cfg['A'], cfg['C'],
                                                                        cfg['range'])}
+
+
+BAD_SIGS = ['varargs', 'out_first', 'out_only', 'wrong_out_name', 'too_many', 'no_x',
+            'out_default_not_none', 'kwout_default_not_none', 'staticmethod', 'classmethod']
+
+
+def _run_badsig(cfg):
+    """Signatures that `_dispatch_call_args` documents as illegal must be refused when the class
+    is first instantiated (ValueError / TypeError), never silently mis-dispatched."""
+    k = cfg['sig']
+    if k == 'varargs':
+        def _call(self, x, *args):
+            return x
+    elif k == 'out_first':
+        def _call(self, out, x):
+            return x
+    elif k == 'out_only':
+        def _call(self, out):
+            return out
+    elif k == 'wrong_out_name':
+        def _call(self, x, y):
+            return x
+    elif k == 'too_many':
+        def _call(self, x, out, z):
+            return x
+    elif k == 'no_x':
+        def _call(self):
+            return None
+    elif k == 'out_default_not_none':
+        def _call(self, x, out=1):
+            return x
+    elif k == 'kwout_default_not_none':
+        def _call(self, x, *, out=1):
+            return x
+    elif k == 'staticmethod':
+        _call = staticmethod(lambda x: x)
+    else:
+        _call = classmethod(lambda cls, x: x)
+    Op = type('Op', (odl.Operator,), {'_call': _call})
+    first = {}
+    try:
+        Op(odl.rn(2), odl.rn(2))
+        first['illegal_signature_accepted'] = 'signature kind %s' % k
+    except (ValueError, TypeError):
+        pass
+    except Exception as e:
+        first['raises:' + type(e).__name__] = repr(e)[:200]
+    return {'evals': 1, 'sig': 'badsig:' + k,
+            'viol': [{'site': 'dispatch[illegal signature %s]' % k, 'symptom': s, 'detail': d}
+                     for s, d in first.items()]}
+
+
+def _run_oopret(cfg):
+    """Out-of-place `_call` results are cast into the range; an uncastable result must raise
+    OpRangeError (never be returned as is)."""
+    ret = cfg['ret']
+
+    def _call(self, x):
+        if ret == 'castable-list':
+            return [2.0, -4.0]
+        if ret == 'wrong-size':
+            return odl.rn(3).one()
+        return object()
+    Op = type('Op', (odl.Operator,), {'_call': _call})
+    op = Op(odl.rn(2), odl.rn(2))
+    first = {}
+    try:
+        y = op(odl.rn(2).element([1.0, -2.0]))
+        if ret != 'castable-list':
+            first['foreign_result_returned'] = 'ret=%s: %r' % (ret, y)
+        elif y not in op.range or not np.array_equal(y.asarray(), [2.0, -4.0]):
+            first['castable_result_not_cast_into_range'] = repr(y)
+    except odl.OpRangeError:
+        if ret == 'castable-list':
+            first['castable_result_refused'] = ''
+    except Exception as e:
+        first['raises:' + type(e).__name__] = repr(e)[:200]
+    return {'evals': 1, 'sig': 'oopret:' + ret,
+            'viol': [{'site': 'returns[out-of-place,%s]' % ret, 'symptom': s, 'detail': d}
+                     for s, d in first.items()]}
 
 
 def _run_returns(cfg):
